@@ -418,6 +418,27 @@ func mixedChunkPayload(r *sim.Rng, dictCap int) sim.Payload {
 	return sim.Payload{Kind: "concat", Parts: parts}
 }
 
+// rarePayload draws, for a small share of the quick and thorough runs, one of
+// two expensive payload shapes together with the dictionary they need:
+// almost incompressible data (a chunk closed by the 64 KiB compressed limit
+// then holds just about 64 KiB of input: the store-or-compress decision at its
+// sharpest) and noise followed by long copies from far back (expensive
+// operations right at the compressed limit of a chunk). ok is false otherwise.
+func rarePayload(r *sim.Rng, tier string) (pl sim.Payload, dictCap int, ok bool) {
+	if tier != "quick" && tier != "thorough" {
+		return pl, 0, false
+	}
+	switch {
+	case r.Chance(1, 300):
+		return sim.Payload{Kind: "alpha", N: r.Range(70<<10, 140<<10), Seed: r.Uint64(), A: r.Range(200, 255)},
+			sim.Pick(r, []int{1 << 16, 1 << 17, 1 << 20}), true
+	case r.Chance(1, 1500):
+		a := r.Range(600<<10, 1200<<10)
+		return sim.Payload{Kind: "farcopy", N: a + r.Range(150<<10, 400<<10), Seed: r.Uint64(), A: a}, 2 << 20, true
+	}
+	return pl, 0, false
+}
+
 // ---- guarded calls into the library ----
 
 // PanicInfo describes a recovered panic of library code.
